@@ -1,2 +1,75 @@
-import DuneVerif.Common.Proto
-def main : IO Unit := DV.runDriver fun _ => "bad-op"
+import DuneVerif.Model.C18
+/-! line-protocol driver for C18.
+
+Strings travel as one token: `-` is the empty string; letters, digits, `/`, `.`, `_` stand for
+themselves; every other byte is `~hh` (two lower-case hex digits).
+
+  u <p>                 -> <processPath p> <prettyPath p false> <prettyPath p true> <prettyPath p> <pathIndicatesDirectory p>
+  b <x> <y>             -> <concatPaths x y> <relativePath x y | ERR:NotImplemented> <hasPrefix x y> <hasSuffix x y>
+  f <fmt> <arg>...      -> <formatString fmt args>      arg = d:<int> | s:<count>:<piece>  (piece repeated count times)
+
+The `u` answer is computed with the character-level model; if the component-level spec `processPathS`
+disagrees on that input the driver prints `MODEL-SPLIT …` instead (so the C/S link is checked on every
+enumerated string as well).
+-/
+open DV DV.C18
+
+def safeChar (c : Char) : Bool := c.isAlphanum || c == '/' || c == '.' || c == '_'
+
+def encStr (s : Str) : String :=
+  if s.isEmpty then "-" else
+  String.ofList (s.flatMap fun c =>
+    if safeChar c then [c] else ['~', hexChar (c.toNat / 16 % 16), hexChar (c.toNat % 16)])
+
+def decAux : List Char → Option Str
+  | [] => some []
+  | '~' :: a :: b :: r =>
+    match hexDigitVal? a, hexDigitVal? b, decAux r with
+    | some x, some y, some t => if x * 16 + y = 0 then none else some (Char.ofNat (x * 16 + y) :: t)
+    | _, _, _ => none
+  | c :: r => if safeChar c then (decAux r).map (c :: ·) else none
+
+def decStr (t : String) : Option Str :=
+  if t == "-" then some [] else if t.isEmpty then none else decAux t.toList
+
+def showB (b : Bool) : String := if b then "true" else "false"
+
+def showRel : RelRes → String
+  | .ok r => encStr r
+  | .notImplemented => "ERR:NotImplemented"
+
+def parseArg (t : String) : Option FArg :=
+  match t.splitOn ":" with
+  | ["d", i] => i.toInt?.map FArg.int
+  | ["s", n, piece] =>
+    match n.toNat?, decStr piece with
+    | some n, some p => some (.str (List.replicate n p).flatten)
+    | _, _ => none
+  | _ => none
+
+def handle (line : String) : String :=
+  match tokens line with
+  | ["u", p] =>
+    match decStr p with
+    | none => "bad-op"
+    | some p =>
+      let c := processPathC p
+      let s := processPathS p
+      if c ≠ s then "MODEL-SPLIT C=" ++ encStr c ++ " S=" ++ encStr s
+      else " ".intercalate [encStr c, encStr (prettyPath p false), encStr (prettyPath p true),
+                            encStr (prettyPathAuto p), showB (pathIndicatesDirectory p)]
+  | ["b", x, y] =>
+    match decStr x, decStr y with
+    | some x, some y =>
+      " ".intercalate [encStr (concatPaths x y), showRel (relativePath x y), showB (hasPrefix x y), showB (hasSuffix x y)]
+    | _, _ => "bad-op"
+  | "f" :: fmt :: args =>
+    match decStr fmt, args.mapM parseArg with
+    | some fmt, some args =>
+      match formatIdeal (fmt.length + 1) fmt args with
+      | some ideal => encStr (formatString ideal)
+      | none => "bad-op"
+    | _, _ => "bad-op"
+  | _ => "bad-op"
+
+def main : IO Unit := runDriver handle
